@@ -133,6 +133,8 @@ def main():
 
     # ---- theorems -----------------------------------------------------------
     tie_mods = list(getattr(prop, "TIE", [])) + list(getattr(prop, "EXTRA_MODULES", []))   # built, audited, re-checked with the property
+    if hasattr(prop, "tie_modules"):
+        tie_mods += list(prop.tie_modules())      # obligations over what the translators delivered on this run
     ok_all, out = vf.lake_build(["Ufw.Props." + pid, prop.DRIVER] + tie_mods)
     proof_ok = ok_all
     driver_ok = ok_all
